@@ -39,6 +39,8 @@ type Hooks struct {
 	Ident  func(st *State, obj types.Object) (Val, bool)
 	Index  func(st *State, x, i Val) (Val, bool)
 	Assert func(st *State, v Val, typ string) (val Val, ok bool, known bool)
+	// Store is told about every assignment to a plain variable.
+	Store func(st *State, obj types.Object, v Val)
 	// Inline resolves a statically-called module function/method to its declaration for inlining.
 	Inline func(fn *types.Func) (*ast.FuncDecl, *types.Info)
 }
